@@ -47,6 +47,11 @@ use roughenough::stats::{Reporter, StatsQueue};
 static KEEP_RUNNING: Lazy<AtomicBool> = Lazy::new(|| AtomicBool::new(true));
 
 fn polling_loop(cfg: Arc<Mutex<Box<dyn ServerConfig>>>, socket: UdpSocket, queue: Arc<StatsQueue>) {
+    #[cfg(roughenough_verif)]
+    let _guard = roughenough::verif::thread_guard();
+    #[cfg(roughenough_verif)]
+    roughenough::verif::point("worker_start", 0);
+
     let mut server = {
         let config = cfg.lock().unwrap();
         let server = Server::new(config.as_ref(), socket, queue);
@@ -57,8 +62,17 @@ fn polling_loop(cfg: Arc<Mutex<Box<dyn ServerConfig>>>, socket: UdpSocket, queue
 
     let mut events = Events::with_capacity(1024);
 
+    #[cfg(roughenough_verif)]
+    roughenough::verif::point("worker_ready", 0);
+
     loop {
+        #[cfg(roughenough_verif)]
+        roughenough::verif::point("loop_top", 0);
+
         server.process_events(&mut events);
+
+        #[cfg(roughenough_verif)]
+        roughenough::verif::point("flag_check", KEEP_RUNNING.load(Ordering::Acquire) as i64);
 
         if !KEEP_RUNNING.load(Ordering::Acquire) {
             warn!("Ctrl-C caught, exiting...");
@@ -162,6 +176,9 @@ pub fn main() {
 
     set_ctrlc_handler();
 
+    #[cfg(roughenough_verif)]
+    roughenough::verif::watch_flag(|| KEEP_RUNNING.load(Ordering::Acquire));
+
     // TODO(stuart) TCP healthcheck REUSEADDR and RESUSEPORT on the tcp socket
 
     let num_workers = config.lock().unwrap().num_workers();
@@ -169,6 +186,9 @@ pub fn main() {
     let mut threads = Vec::new();
 
     for i in 0..num_workers {
+        #[cfg(roughenough_verif)]
+        roughenough::verif::point("spawn", i as i64);
+
         let queue = stats_queue.clone();
         let cfg = config.clone();
         let socket = bind_socket(cfg.clone()).unwrap();
@@ -179,6 +199,9 @@ pub fn main() {
 
         threads.push(thread);
     }
+
+    #[cfg(roughenough_verif)]
+    roughenough::verif::point("cfg_read", 0);
 
     let client_stats_enabled = config.lock().unwrap().client_stats_enabled();
     let persistence_directory = config.lock().unwrap().persistence_directory();
@@ -198,9 +221,15 @@ pub fn main() {
         threads.push(report_thread);
     }
 
+    #[cfg(roughenough_verif)]
+    roughenough::verif::point("join_all", threads.len() as i64);
+
     for t in threads {
         t.join().expect("join failed")
     }
+
+    #[cfg(roughenough_verif)]
+    roughenough::verif::point("main_done", 0);
 
     info!("Done.");
     process::exit(0);
